@@ -167,6 +167,32 @@ func (fx *fnExec) applyContract(dst *ssa.Call, ctr *FuncContract, name string, c
 	for _, a := range ctr.Uses {
 		fx.useAxiom(a)
 	}
+	portableOnly := false
+	if !ctr.Extern {
+		modes := ctr.Modes
+		if len(modes) == 0 {
+			modes = []string{"int"}
+		}
+		okMode := false
+		for _, m := range modes {
+			if m == fx.mode {
+				okMode = true
+			}
+		}
+		if !okMode {
+			// only portable clauses cross the mode boundary
+			for _, cl := range ctr.Requires {
+				if !cl.Portable {
+					panic(vcErr("callee %s is verified in modes %v; its precondition %q is not portable to mode %s (%s)", name, modes, cl.Src, fx.mode, where))
+				}
+			}
+			if ctr.PanicsIff != nil && !ctr.PanicsIff.Portable {
+				panic(vcErr("callee %s is verified in modes %v; its panics_iff is not portable to mode %s (%s)", name, modes, fx.mode, where))
+			}
+			portableOnly = true
+		}
+	}
+	fx.runBeforeCallHooks(name, args, where)
 	pre := fx.st.clone()
 	env := &SpecEnv{fx: fx, cur: fx.st, old: pre, names: map[string]SV{}, bound: map[string]SV{}, callee: true}
 	pn := paramNames(callee, sig, c.IsInvoke())
@@ -186,15 +212,15 @@ func (fx *fnExec) applyContract(dst *ssa.Call, ctr *FuncContract, name string, c
 		if !cl.inMode(fx.mode) {
 			continue
 		}
-		fx.oblige(fmt.Sprintf("pre@%s.%d%s", short, k+1, lbl(cl)), "pre", fx.evalBool(cl.E, env), where, name+" requires "+cl.Src)
+		fx.oblige(fmt.Sprintf("pre@%s.%d%s", short, k+1, lbl(cl)), "pre", fx.evalClause(cl, env), where, name+" requires "+cl.Src)
 	}
 	if p := ctr.PanicsIff; p != nil && p.inMode(fx.mode) {
-		pc := fx.evalBool(p.E, env)
+		pc := fx.evalClause(*p, env)
 		// a panic of the callee is a panic site of the caller
 		if fx.ctr != nil && fx.ctr.PanicsIff != nil && fx.ctr.PanicsIff.inMode(fx.mode) {
 			saveR := fx.curR
 			fx.curR = tAnd(fx.curR, pc)
-			fx.oblige("panics_iff:via-"+short, "site.panics_iff", fx.evalBool(fx.ctr.PanicsIff.E, fx.entryEnv()), where, "callee "+name+" panics ==> "+fx.ctr.PanicsIff.Src)
+			fx.oblige("panics_iff:via-"+short, "site.panics_iff", fx.evalClause(*fx.ctr.PanicsIff, fx.entryEnv()), where, "callee "+name+" panics ==> "+fx.ctr.PanicsIff.Src)
 			fx.curR = saveR
 			fx.assume(tNot(pc))
 		} else if fx.ctr != nil && fx.ctr.MayPanic {
@@ -259,10 +285,10 @@ func (fx *fnExec) applyContract(dst *ssa.Call, ctr *FuncContract, name string, c
 		fx.bindResult(env, res, sig)
 	}
 	for _, cl := range ctr.Ensures {
-		if !cl.inMode(fx.mode) {
+		if !cl.inMode(fx.mode) || (portableOnly && !cl.Portable) {
 			continue
 		}
-		fx.assume(fx.evalBool(cl.E, env))
+		fx.assume(fx.evalClause(cl, env))
 	}
 	fx.runCallHooks(name, args, res, fx.curEnv(), where)
 }
